@@ -302,7 +302,7 @@ class World:
         self.clock = CLOCK_BASE
         self.sim_seconds = 0
         self.io_buf = io_buf
-        self.read_buf = read_buf if read_buf is not None else io_buf  # binary read-only opens
+        self.read_buf = read_buf if read_buf is not None else io_buf  # read-only opens
         self.text_chunk = text_chunk
         self.short_reads = short_reads  # None or a random.Random
         self.tick_rng = tick_rng
@@ -321,6 +321,7 @@ class World:
         self.record_reads = record_reads
         self.read_logs = {}  # relpath -> list of user-level read requests
         self.nonyield_suffixes = (".log",)
+        self.nonyield_paths = ()  # operations on these commute with everything (immutable during a step)
         self.events = 0
         self._last_failed = None
 
@@ -424,7 +425,7 @@ class World:
                 self.advance(1)
         note = "" if dec is None else dec[0]
         self.trace.append((proc.pid, n, op, rel, nbytes, note))
-        if self.sched is not None and not rel.endswith(self.nonyield_suffixes):
+        if self.sched is not None and not rel.endswith(self.nonyield_suffixes) and rel not in self.nonyield_paths:
             self.sched.yield_point(proc)
             if proc.zombie:
                 raise SimCrash("killed while parked")
@@ -549,7 +550,7 @@ class World:
                 buffering = -1
                 line_buffering = True
             if buffering < 0:
-                buffering = self.read_buf if (reading and binary and not updating) else self.io_buf
+                buffering = self.read_buf if (reading and not updating) else self.io_buf
             if buffering == 0:
                 if binary:
                     return result
